@@ -265,7 +265,7 @@ def run(tier: str, prop: str = "C01") -> int:
         # every history of interest contains a duplication step
 
     # 1. design: with the intended tables Frozen is an invariant of the protocol
-    r0 = tlc.run("MC_SharingGen", CFG % (maxcalls, maxdeep, dups, deepany, "INVARIANT Frozen"),
+    r0 = tlc.run("MC_SharingGen", CFG % (maxcalls, maxdeep, dups, deepany, "INVARIANT Frozen\nINVARIANT Functional"),
                  extra_files={"MC_SharingGen.tla": tables_module(scens, meas, True)}, workers=16, heap="8g", timeout=3000)
     rep.add_tlc(r0)
     _t("intended model checked")
@@ -293,8 +293,30 @@ def run(tier: str, prop: str = "C01") -> int:
     _t("histories parsed")
     events = run_histories(jobs, subset=["generic", "mysql", "postgresql"] if tier == "quick" else None)
     _t(f"{len(jobs)} histories executed")
+    # lineage oracle: the digest every lineage (labels from the seed) gives when executed alone as a chain; a sibling-made history must give the same
+    DUPS = ("copy", "deepcopy", "pickle")
+    chain = {}
+    lins = {}
+    for e in events:
+        sid, hist = jobs[e["tid"]][1], jobs[e["tid"]][4]
+        lin = {1: ()}
+        for k, st in enumerate(hist):
+            base = lin.get(st["r"])
+            lin[k + 2] = None if base is None else (base if st["l"] in DUPS else base + (st["l"],))
+        lins[e["tid"]] = lin
+        is_chain = all(st["r"] == k + 1 for k, st in enumerate(hist)) and not any(st["l"] in DUPS for st in hist)
+        if is_chain:
+            for k, st in enumerate(e["steps"]):
+                if st["res"] == "new" and lin[k + 2] is not None:
+                    chain.setdefault((sid, lin[k + 2]), st["obs"][k + 1])
+    for e in events:
+        sid, lin = jobs[e["tid"]][1], lins[e["tid"]]
+        for k, st in enumerate(e["steps"]):
+            ln = lin.get(k + 2)
+            # (labels that pass a shared pool object are exempt: the automatic alias of an argument is the one permitted side effect)
+            st["lin"] = "" if ln is None or st["res"] != "new" or any("#pool" in x for x in ln) else chain.get((sid, ln), "")
     # 3. judge
-    slim = [{"tid": e["tid"], "obs0": e["obs0"], "steps": [{k: s[k] for k in ("r", "l", "res", "obs")} for s in e["steps"]]} for e in events]
+    slim = [{"tid": e["tid"], "obs0": e["obs0"], "steps": [{k: s[k] for k in ("r", "l", "res", "obs", "lin")} for s in e["steps"]]} for e in events]
     results = tlc.judge_shards("J_Frozen", "INIT Init\nNEXT Next\n", slim, shard=max(2000, len(slim) // 16 + 1), heap="3g")
     rep.add_tlc(results)
     _t("judged")
@@ -321,6 +343,12 @@ def run(tier: str, prop: str = "C01") -> int:
                 rep.discrepancy([[kind, cls, hist[step - 1]["l"]]], {"scenario": sid, "history": hist, "step": step,
                                                                       "exc": e["steps"][step - 1]["exc"]},
                                 what="duplicate raises or is not observed like its original")
+                continue
+            if kind == "sibling-dependent":
+                lab = fam_label_owner(fname, sname, hist[step - 1]["l"])
+                rep.discrepancy([["sibling-dependent"] + lab], {"scenario": sid, "history": hist, "step": step,
+                                                               "lineage": list(lins[tid][step + 1] or ())},
+                                what="the same call on the same partial query returns something else after a sibling continuation was made")
                 continue
             if kind != "changed":
                 rep.discrepancy([[kind, fname.split("_")[0], hist[step - 1]["l"]]], {"scenario": sid, "history": hist, "step": step},
@@ -358,6 +386,16 @@ def run(tier: str, prop: str = "C01") -> int:
     rep.assumptions = ["arguments are built fresh inside every call except the shared-pool labels (join#pool*, from_#pool*), which pass one subquery object to several calls",
                        "observation = renderings + term metadata; a change invisible to all 13 renderings is not a change"] + getattr(rep, "assumptions_extra", [])
     return rep.finish()
+
+
+def fam_label_owner(fname, sname, label):
+    fam = _fams()[fname]
+    if label not in fam.labels:
+        return [fname.split("_")[0], label]
+    try:
+        return list(catalog.owner(fam.seeds[sname](), fam.labels[label].meth))
+    except Exception:  # noqa
+        return [fname.split("_")[0], label]
 
 
 def replay(path: str) -> int:
